@@ -492,6 +492,16 @@ class CallMixin:
             return (t.v,)
         if isinstance(t, K) and isinstance(t.v, tuple):
             return tuple(t.v)
+        if isinstance(t, K):
+            # abstract base classes of typing / collections.abc: the concrete built-in kinds that are instances
+            import collections.abc as _abc
+            import typing as _typing
+            origin = getattr(t.v, "__origin__", t.v)
+            table = {_abc.Sequence: (str, list, tuple), _abc.Iterable: (str, list, tuple, set, dict),
+                     _abc.Collection: (str, list, tuple, set, dict), _abc.Mapping: (dict,), _abc.Set: (set,),
+                     _abc.MutableSequence: (list,), _abc.Sized: (str, list, tuple, set, dict)}
+            if origin in table:
+                return table[origin]
         raise Unsupported(f"isinstance against {t!r}")
 
     def isinstance_formula(self, v, t):
